@@ -45,8 +45,12 @@ func handleSchema(definition *ast.Document) error {
 		queryNodeRef = definition.ImportObjectTypeDefinition("Query", "", nil, nil)
 	}
 
+	// a document without a schema definition gets its root operation types from the default names;
+	// an explicit schema definition lists its mutation and subscription types itself: a type that
+	// is merely called Mutation or Subscription is not a root then
+	hasSchemaDefinition := definition.HasSchemaDefinition()
 	addSchemaDefinition(definition)
-	addMissingRootOperationTypeDefinitions(definition)
+	addMissingRootOperationTypeDefinitions(definition, !hasSchemaDefinition)
 	addIntrospectionQueryFields(definition, queryNodeRef)
 
 	typeNamesVisitor := NewTypeNameVisitor()
@@ -63,7 +67,7 @@ func addSchemaDefinition(definition *ast.Document) {
 	definition.AddSchemaDefinitionRootNode(schemaDefinition)
 }
 
-func addMissingRootOperationTypeDefinitions(definition *ast.Document) {
+func addMissingRootOperationTypeDefinitions(definition *ast.Document, inferMutationAndSubscription bool) {
 	var rootOperationTypeRefs []int
 
 	for i := range definition.RootNodes {
@@ -73,9 +77,9 @@ func addMissingRootOperationTypeDefinitions(definition *ast.Document) {
 			switch {
 			case bytes.Equal(typeName, ast.DefaultQueryTypeName):
 				rootOperationTypeRefs = createRootOperationTypeIfNotExists(definition, rootOperationTypeRefs, ast.OperationTypeQuery, i)
-			case bytes.Equal(typeName, ast.DefaultMutationTypeName):
+			case inferMutationAndSubscription && bytes.Equal(typeName, ast.DefaultMutationTypeName):
 				rootOperationTypeRefs = createRootOperationTypeIfNotExists(definition, rootOperationTypeRefs, ast.OperationTypeMutation, i)
-			case bytes.Equal(typeName, ast.DefaultSubscriptionTypeName):
+			case inferMutationAndSubscription && bytes.Equal(typeName, ast.DefaultSubscriptionTypeName):
 				rootOperationTypeRefs = createRootOperationTypeIfNotExists(definition, rootOperationTypeRefs, ast.OperationTypeSubscription, i)
 			default:
 				continue
